@@ -38,7 +38,8 @@ EXPLANATION = ("Proved (Lean, unbounded): Token::Match's documented language, th
                "through ordered containers keyed by name, str() comparisons outside patterns, name-prefix tests, symbol-database "
                "definition order, value flow. Token classification (tokType/isName/varId) is assumed unchanged by the renaming.")
 THEOREMS = ["Cppcheck.C05.lexRaw_of_layout", "Cppcheck.C05.tokens_of_layout", "Cppcheck.C05.combine_relocation", "Cppcheck.C05.lexer_layout",
-            "Cppcheck.C05.lexer_layout_lineShift", "Cppcheck.C05.comment_line_insertion_not_neutral", "Cppcheck.C05.executable_scope_probe_dead",
+            "Cppcheck.C05.lexer_layout_lineShift", "Cppcheck.C05.comment_line_insertion_not_neutral", "Cppcheck.C05.executable_scope_probe_dead", "Cppcheck.C05.perFunction_perm_invariant", "Cppcheck.C05.nothrowThrows_perm_invariant",
+            "Cppcheck.C05.sharedMemo_order_dependent",
             "Cppcheck.C05.match_equivariant", "Cppcheck.C05.match_equivariant_compiled", "Cppcheck.C05.match_equivariant_interpreted",
             "Cppcheck.C05.findmatch_equivariant", "Cppcheck.C05.renaming_equivariant", "Cppcheck.C05.all_source_patterns_equivariant",
             "Cppcheck.C05.all_source_patterns_equivariant_compiled"]
@@ -262,6 +263,17 @@ TEMPLATES = {
     "labelGoto": [("func", ["int $Ff(int $n) {", "if ($n) {", "goto $L;", "}", "$n = 1;", "$L:", "return $n;", "}"])],
     "condAssign": [("func", ["int $Ff(int $a, int $b) {", "if ($a = $b) {", "return 1;", "}", "return 0;", "}"])],
     "signConv": [("func", ["unsigned $Ff(void) {", "int $x = -1;", "unsigned $u = $x;", "return $u * 2;", "}"])],
+    "twoCallers": [("func", ["static int $Fg(int $d) {", "return 100 / $d;", "}"]), ("func", ["int $Ff(void) {", "return $Fg(5);", "}"]),
+                   ("func", ["int $Fh(void) {", "return $Fg(0);", "}"])],
+    "mutualRec": [("func", ["static int $Fa(int *$p, int $n) {", "if ($n > 0) {", "return $Fb($p, $n - 1);", "}", "return *$p;", "}"]),
+                  ("func", ["static int $Fb(int *$q, int $m) {", "return $Fa($q, $m);", "}"]), ("func", ["int $Ff(void) {", "return $Fb(0, 3);", "}"])],
+    "helperAlloc": [("func", ["static char *$Fg(void) {", "return malloc(10);", "}"]), ("func", ["void $Ff(void) {", "char *$p = $Fg();", "if ($p) {", "$p[0] = 0;", "}", "}"]),
+                    ("func", ["void $Fh(void) {", "char *$q = $Fg();", "free($q);", "}"])],
+    "helperFree": [("func", ["static void $Fg(char *$r) {", "free($r);", "}"]), ("func", ["char $Ff(void) {", "char *$p = malloc(4);", "$Fg($p);", "return *$p;", "}"])],
+    "sharedStatic": [("struct", ["static int *$G = 0;"]), ("func", ["void $Ff(void) {", "$G = 0;", "}"]), ("func", ["int $Fh(void) {", "return *$G;", "}"]),
+                     ("func", ["void $Fk(int *$p) {", "$G = $p;", "}"])],
+    "globalFile": [("struct", ["static FILE *$G;"]), ("func", ["void $Ff(void) {", "$G = fopen(\"a.txt\", \"r\");", "}"]),
+                   ("func", ["void $Fh(void) {", "fprintf($G, \"x\");", "}"]), ("func", ["void $Fk(void) {", "fclose($G);", "}"])],
     "globalUse": [("func", ["int $Ff(void) {", "static int $c = 0;", "$c++;", "return $c;", "}"])],
 }
 
@@ -557,7 +569,7 @@ def make_rewrite(rng, prog, kind, reserved_all, special=False):
             k1 += nb
     else:
         raise ValueError(kind)
-    return dict(kind=kind, text0=text0, text1=text1, posmap=posmap, namemap=namemap)
+    return dict(kind=kind, text0=text0, text1=text1, posmap=posmap, namemap=namemap, lang=prog.get("lang", "c"), order=locals().get("order"))
 
 
 def compare_pair(ctx, rw, fresh=False):
@@ -845,6 +857,148 @@ def eval_comment_pairs(ctx, res, exe, cases):
             res.violation("inserting comment-only lines changes the token stream of the real lexer: src=%r edited=%r tokens=%s vs %s" % (a[:200], b[:200], sp0[:40], sp1[:40]),
                           dict(kind="layoutpair", rewrite="layout:comment-line", src=core.hx(a), src2=core.hx(b), replay_cmd="./check.py C05 --replay <this file>"),
                           concrete=True, key=key)
+
+
+# ---- C++ call-graph programs: per-function checks and the order of the definitions -----------------------------------
+def gen_callgraph(rng, reserved_all):
+    """C++ program: prototypes first, k >= 3 functions with random calls (cycles likely), throwing callees, several
+    noexcept / throw() callers and possibly main.  Returns a `prog` usable by make_rewrite plus the model description."""
+    pool = [n for n in NAME_POOL if n not in reserved_all]
+    rng.shuffle(pool)
+    k = rng.choice([3, 4, 4, 5, 6])
+    names = pool[:k]
+    has_main = rng.random() < 0.7
+    fns = []
+    for f in range(k):
+        r = rng.random()
+        kind, spec, decl = 0, "", False
+        if has_main and f == k - 1:
+            kind = 2
+        elif r < 0.4:
+            kind, spec = 1, rng.choice(["noexcept", "noexcept", "throw()", "noexcept(true)"])
+        elif r < 0.47:
+            decl, spec = True, "throw(int)"
+        items = []
+        for _ in range(rng.choice([1, 1, 2, 2, 3])):
+            if rng.random() < 0.22:
+                items.append(("t", None))
+            else:
+                items.append(("c", rng.randrange(k - 1 if has_main else k)))      # nobody calls main
+        fns.append(dict(kind=kind, spec=spec, decl=decl, items=items))
+    if not any(it[0] == "t" for fn in fns for it in fn["items"]):
+        fns[rng.randrange(k - 1 if has_main else k)]["items"].append(("t", None))
+    funcs = []
+    for f, fn in enumerate(fns):
+        if fn["kind"] == 2:
+            head = "int main(int argc, char **argv) {"
+            arg = "argc"
+        else:
+            head = "int %s(int d) %s {" % (names[f], fn["spec"])
+            arg = "d"
+        lines = [head, "int acc = %s;" % arg]
+        for (t, g) in fn["items"]:
+            lines.append("if (%s == 3) throw 1;" % arg if t == "t" else "acc += %s(%s - 1);" % (names[g], arg))
+        lines += ["return acc;", "}"]
+        tl = [tokenize_line(l) for l in lines]
+        funcs.append(dict(kind="func", lines=tl, proto=tl[0][:-1] + [";"], tmpl="callgraph"))
+    return dict(structs=[], funcs=funcs, names=[n for f, n in enumerate(names) if fns[f]["kind"] != 2], kinds=["callgraph"], lang="c++", model=fns)
+
+
+def callgraph_spec(fns):
+    return " ".join("%d%d:%s" % (fn["kind"], 1 if fn["decl"] else 0, ",".join("t" if t == "t" else "c%d" % g for t, g in fn["items"]) or "-") for fn in fns)
+
+
+def callgraph_expected_lines(prog, order, model_out):
+    """model findings `f:i:kind` -> (id, line) in the canonical text of the given definition order"""
+    start, line = {}, len(prog["funcs"]) + 1
+    for f in order:
+        start[f] = line
+        line += len(prog["funcs"][f]["lines"])
+    out = []
+    for w in model_out.split()[1:]:
+        f, i, kd = (int(x) for x in w.split(":"))
+        out.append(("throwInEntryPoint" if kd == 2 else "throwInNoexceptFunction", start[f] + 2 + i))
+    return sorted(out)
+
+
+def callgraph_tie(ctx, res, drv, allres, n_prog, n_orders):
+    """reorder pairs on call-graph programs (P_impl) + CheckExceptionSafety::nothrowThrows against the Lean model"""
+    rng = ctx.rng
+    pairs, model_cases = [], []
+    for _ in range(n_prog):
+        prog = gen_callgraph(rng, allres)
+        k = len(prog["funcs"])
+        orders = [list(range(k))]
+        for _ in range(n_orders):
+            rw = make_rewrite(rng, prog, "reorder", allres)
+            pairs.append(rw)
+            orders.append(rw["order"])
+        pairs.append(make_rewrite(rng, prog, "rename", allres))
+        pairs.append(make_rewrite(rng, prog, rng.choice(["layout:comments", "layout:lines", "layout:mixed"]), allres))
+        for o in orders:
+            model_cases.append((prog, o, render(layout_default(prog, o))[0]))
+    trip = meta_pairs(ctx, res, pairs, "callgraph")
+    report_meta(ctx, res, trip)
+    ops = ["nothrow %s %s" % (",".join(str(x) for x in o), callgraph_spec(p["model"])) for p, o, _ in model_cases]
+    rc, mout, err = core.run_lines(drv, [], ops)
+    bad = []
+    if len(mout) != len(ops):
+        res.oblig("correspondence:nothrow-model", False, "correspondence", "driver produced %d lines for %d ops: %s" % (len(mout), len(ops), err[-200:]))
+        return
+    for (prog, o, text), mo in zip(model_cases, mout):
+        try:
+            fs = run_cppcheck(ctx, text, lang="c++")
+        except core.CheckBroken:
+            continue
+        real = sorted((f["id"], f["locs"][0][0]) for f in fs if f["id"] in ("throwInNoexceptFunction", "throwInEntryPoint") and f["locs"])
+        exp = callgraph_expected_lines(prog, o, mo)
+        res.case("nothrow|" + text, len(exp) > 0, dict(tie="nothrow-model", order=o, model=mo, real=real, program=text[:300]) if len(bad) == 0 and len(exp) > 1 and res.evaluations % 17 == 0 else None)
+        res.count("nothrow:findings-%d" % min(len(exp), 3))
+        if real != exp:
+            bad.append((text, o, exp, real))
+        else:
+            res.traces_validated += 1
+    res.oblig("correspondence:nothrow-model", not bad, "correspondence",
+              "" if not bad else "%d of %d programs differ; first: order=%s model=%s real=%s\n%s" % (len(bad), len(model_cases), bad[0][1], bad[0][2], bad[0][3], bad[0][0][:1500]))
+
+
+# ---- translator guard: state that a per-file check entry point carries from one function to the next -----------------------------
+CONTAINER = r"std::(?:set|map|unordered_set|unordered_map|vector|list|multimap|multiset|deque|stack)\s*<"
+SCOPE_LOOP = re.compile(r"for\s*\([^;{}]*?:\s*[\w>().-]*?(?:->|\.)\s*(functionScopes|scopeList|classAndStructScopes|functionList)\s*\)")
+
+
+def scan_check_state():
+    """(file, function signature, variable) for every mutable container that is declared in a lib/check*.cpp function before
+    a loop over the functions / scopes of the file, and every non-const static container: a check that keeps such a thing can
+    make the verdict on one function depend on the functions decided before (definition order)"""
+    hits = []
+    for f in sorted(glob.glob(os.path.join(core.REPO, "lib", "check*.cpp"))):
+        src = strip_comments(open(f, encoding="utf-8", errors="replace").read())
+        base = os.path.basename(f)
+        for m in SCOPE_LOOP.finditer(src):
+            st = src.rfind("\n{\n", 0, m.start())
+            if st < 0:
+                continue
+            sig = src[src.rfind("\n", 0, st) + 1:st].strip()
+            head = src[st:m.start()]
+            for d in re.finditer(r"^[ \t]*((?:const\s+)?" + CONTAINER + r"[^;=(){}]*>\s*&?\s*(\w+))\s*(?:;|\{\s*\}\s*;)", head, re.M):
+                if d.group(1).lstrip().startswith("const"):
+                    continue
+                hits.append((base, re.sub(r"\s+", " ", sig)[:80], d.group(2)))
+        for d in re.finditer(r"^[ \t]*static\s+(?!const\b)(?:thread_local\s+)?(" + CONTAINER + r"[^;=(){}]*>\s*(\w+))\s*[;={]", src, re.M):
+            hits.append((base, "<static>", d.group(2)))
+    return sorted(set(hits))
+
+
+def state_guard(ctx, res):
+    p = os.path.join(core.VERIF, "corpus", "C05", "check_state_allowlist.json")
+    allow = {(e["file"], e["function"], e["var"]) for e in json.load(open(p))} if os.path.exists(p) else set()
+    hits = scan_check_state()
+    new = [h for h in hits if h not in allow]
+    res.extra["check_state_variables"] = len(hits)
+    res.oblig("T2:no-unclassified-cross-function-state-in-checks", not new and len(hits) >= 5, "translation",
+              "" if not new else "container(s) declared before a loop over the file's functions / static, not in corpus/C05/check_state_allowlist.json: %s - "
+              "a per-function verdict may now depend on the order of the definitions (hypothesis of perFunction_perm_invariant)" % new[:5])
 
 
 # ---- the check --------------------------------------------------------------------------------------------------------
@@ -1252,6 +1406,10 @@ def run(ctx, res):
     match_tie(ctx, res, drv, exe, ex, lean_like, allres, 400 if thorough else 90, 6 if thorough else 4)
 
     tm["match"] = round(time.time() - t0, 1); t0 = time.time()
+    # ---- part 3: definition order -------------------------------------------------------------------------------------------
+    state_guard(ctx, res)
+    callgraph_tie(ctx, res, drv, allres, 120 if thorough else 24, 3)
+    tm["callgraph"] = round(time.time() - t0, 1); t0 = time.time()
     # ---- M: CLI metamorphic pairs ------------------------------------------------------------------------------------------
     n_prog = 220 if thorough else 36
     kinds = ["layout:spaces", "layout:comments", "layout:lines", "layout:oneline", "layout:mixed", "layout:crlf", "rename", "reorder"]
@@ -1260,6 +1418,8 @@ def run(ctx, res):
         prog = gen_program(rng, allres)
         for kind in kinds:
             pairs.append(make_rewrite(rng, prog, kind, allres))
+        if len(prog["funcs"]) > 2:
+            pairs.append(make_rewrite(rng, prog, "reorder", allres))
         if thorough:
             pairs.append(make_rewrite(rng, prog, "rename", allres, special=True))
             pairs.append(make_rewrite(rng, prog, "reorder", allres))
